@@ -129,3 +129,88 @@ func concRing(args []string, out *bufio.Writer) {
 		fmt.Fprintf(out, "end\n")
 	}
 }
+
+// HOOK-ring: the striped buffer driven from one goroutine, with "another goroutine's" action (table expansion, another
+// recording, a drain) placed exactly at a producer's publication point through a hooked node.  Same transcript and judge as
+// CONC-ring: everything successfully recorded is delivered exactly once, nothing else is.
+func hookRing(args []string, out *bufio.Writer) {
+	fs := flag.NewFlagSet("hook-ring", flag.ExitOnError)
+	seed := fs.Uint64("seed", 1, "")
+	n := fs.Int("n", 10, "")
+	from := fs.Int("from", 0, "")
+	fs.Parse(args)
+	nm := node.NewManager[int, int](node.Config{WithSize: true})
+	for i := *from; i < *from+*n; i++ {
+		r := &rng{s: scriptSeed(*seed, "hookring", i)}
+		fmt.Fprintf(out, "script hookring-%d-%d\n", *seed, i)
+		maxLen := pick(r, []int{2, 4, 8, 16})
+		s := lossy.NewStriped(maxLen, nm)
+		var accepted, delivered []int
+		next := 1
+		maxLenSeen := 0
+		note := func() {
+			if l := s.Len(); l > maxLenSeen {
+				maxLenSeen = l
+			}
+		}
+		drain := func() {
+			s.DrainTo(func(nd node.Node[int, int]) { delivered = append(delivered, nd.Key()) })
+		}
+		plainAdd := func() {
+			id := next
+			next++
+			if r.chance(0.7) {
+				lossy.VerifSteerToken(uint32(r.intn(16)))
+			}
+			if s.Add(nm.Create(id, id, 0, 0, 1)) == lossy.Success {
+				accepted = append(accepted, id)
+			}
+			note()
+		}
+		steps := 60 + r.intn(240)
+		for j := 0; j < steps; j++ {
+			switch x := r.intn(10); {
+			case x < 4:
+				plainAdd()
+			case x < 8:
+				id := next
+				next++
+				action := r.intn(4)
+				h := &lossy.VerifHookedNode[int, int]{Node: nm.Create(id, id, 0, 0, 1)}
+				h.Hook = func() {
+					switch action {
+					case 0:
+						s.VerifGrow()
+					case 1:
+						plainAdd()
+					case 2:
+						drain()
+					default:
+						s.VerifGrow()
+						plainAdd()
+					}
+				}
+				lossy.VerifSteerToken(uint32(r.intn(16)))
+				if s.Add(h) == lossy.Success {
+					accepted = append(accepted, id)
+				}
+				note()
+			case x < 9:
+				drain()
+			default:
+				s.VerifGrow()
+			}
+		}
+		drain()
+		drain()
+		length, rings := s.VerifStripes()
+		fmt.Fprintf(out, "cfg recorders=1 per=%d maxlen=%d stripes=%d rings=%d maxlenseen=%d finallen=%d\n", steps, maxLen, length, rings, maxLenSeen, s.Len())
+		for _, id := range accepted {
+			fmt.Fprintf(out, "accepted %d\n", id)
+		}
+		for _, id := range delivered {
+			fmt.Fprintf(out, "delivered %d\n", id)
+		}
+		fmt.Fprintf(out, "end\n")
+	}
+}
